@@ -127,10 +127,15 @@ PROP = dict(
         quick=[
             job("htlcswitch", "^TestVerifC08Atomic$", [_T], 30, shards=8, timeout=1500),
             job("htlcswitch", "^TestVerifC08FwdPkgReplay$", [_TF], 100, shards=4, timeout=600),
+            # a response lost between the outgoing forwarding package and the incoming link (paid downstream,
+            # never claimed upstream): the switch-level link life-cycle machine shared with C07 (parked
+            # responses, duplicate responses, ack ticks, restarts)
+            job("htlcswitch", "^TestVerifC07LinkLifecycle$", ["TestVerifC07LinkLifecycle"], 300, shards=3),
         ],
         thorough=[
             job("htlcswitch", "^TestVerifC08Atomic$", [_T], 25, shards=12, timeout=2400, race=True),
             job("htlcswitch", "^TestVerifC08FwdPkgReplay$", [_TF], 40, shards=8, timeout=1500, race=True),
         ],
     ),
+    also=["C07"],
 )
